@@ -20,7 +20,9 @@ Notes:
     (tsan:<kind>:<fnA>|<fnB>) is produced by tsan_keys() below.
   * A thorough run additionally drives the same workload under valgrind --tool=helgrind (prod build, 20 short
     runs); those reports are keyed helgrind:<kind>:<fnA>|<fnB>.
-  * --replay: "seed=<n>,threads=<t>,ops=<k>" is re-run 12 times (races vary from run to run).
+  * --replay: "seed=<n>,threads=<t>,ops=<k>[,empty=1]" is re-run 12 times (races vary from run to run).
+  * One run in ten (quick) lets the rotator delete ALL ticket keys now and then ("--empty 1"): legal API use that
+    switches ticket support off and on while handshakes are in flight.
   * VERIF_C20_RUNS=<n> (development aid) truncates the run plan."""
 import glob, hashlib, json, os, re, shutil, subprocess, sys, time
 import vflib
@@ -30,10 +32,12 @@ TABLE = 32  # SSL_SESSION_TABLE_SIZE of the default configuration
 
 # ------------------------------------------------------------------------------------------ run plans
 def plan(tier):
+    """(threads, operations per thread, empty) per run; empty=1: the rotator now and then deletes ALL ticket keys"""
     if tier == "quick":      # 40 runs, seed-stable shape
-        return [(16, 50)] * 6 + [(8, 50)] * 12 + [(4, 80)] * 12 + [(2, 120)] * 10
+        p = [(16, 50)] * 6 + [(8, 50)] * 12 + [(4, 80)] * 12 + [(2, 120)] * 10
+        return [(t, k, 1 if i % 10 == 9 else 0) for i, (t, k) in enumerate(p)]
     cyc = [(16, 50), (8, 50), (4, 100), (2, 200), (8, 50), (6, 60), (3, 100), (4, 50), (4, 60), (2, 300), (12, 50), (5, 80)]
-    return [cyc[i % len(cyc)] for i in range(1008)]
+    return [cyc[i % len(cyc)] + (1 if i % 12 in (5, 8) and (i // 12) % 2 == 0 else 0,) for i in range(1008)]
 
 
 def derive(seed, i):
@@ -190,10 +194,25 @@ ECDHE = {0xc02f, 0xc027, 0xc030, 0xc02b, 0xc023, 0xc013, 0xc014, 0xc009, 0x1301,
 CRLSUB = ["update", "update-auth", "insert", "delete", "delete-all", "query"]
 
 
+PRIMARY = {"id12": "id", "id11": "id", "tk12": "tk", "psk13": "psk"}
+
+
 def cred_of(o, pre):
-    lt = o["lt"]
-    f = {"id12": "id", "id11": "id", "tk12": "tk", "psk13": "psk"}[lt]
+    """the logical client's primary credential before ('off') / after ('iss') the operation"""
+    f = PRIMARY[o["lt"]]
     return f, o[pre + "_" + f]
+
+
+def eff(o):
+    """The credential the server could act on = what the client really put into its ClientHello ('wire' bits).
+    A ticket overrides a session id.  A ticket client also holds a plain session id when a server without
+    ticket keys answered it."""
+    f = PRIMARY[o["lt"]]
+    if (o["wire"] & 1) and o["off_" + f] != "0":
+        return f, o["off_" + f]
+    if o["lt"] == "tk12" and (o["wire"] & 2) and o["off_id"] != "0":
+        return "id", o["off_id"]
+    return None
 
 
 def kind_of(o):
@@ -203,10 +222,12 @@ def kind_of(o):
         if o["mode"] != "normal":
             return "hs:%s:%s%s" % (o["lt"], o["mode"], sh)
         if o["res"]:
-            return "hs:%s:resumed%s" % (o["lt"], sh)
-        _, c = cred_of(o, "off")
-        if c != "0":
-            return "hs:%s:%s" % (o["lt"], "fallback-full" if o["wire"] else "full-not-offered")
+            e = eff(o)
+            return "hs:%s:resumed%s%s" % (o["lt"], "-by-id" if e and e[0] == "id" and o["lt"] == "tk12" else "", sh)
+        if eff(o):
+            return "hs:%s:fallback-full" % o["lt"]
+        if any(o["off_" + f] != "0" for f in ("id", "tk", "psk")):
+            return "hs:%s:full-not-offered" % o["lt"]
         return "hs:%s:full:%s%s" % (o["lt"], "ecdhe" if o["suite"] in ECDHE else "rsa", "+cauth" if o["cauth"] else "")
     if k == "tkdel":
         return "tkdel" if o["rc"] == 0 else "tkdel:miss"
@@ -218,7 +239,7 @@ def kind_of(o):
 def brief(o):
     s = "T%d[%d,%d] %s" % (o["th"], o["c"], o["r"], kind_of(o))
     if o["k"] == "hs":
-        f, c = cred_of(o, "off")
+        f, c = eff(o) or (PRIMARY[o["lt"]] + "(held)", o["off_" + PRIMARY[o["lt"]]])
         f2, c2 = cred_of(o, "iss")
         s += " lc=%d suite=%04x offered=%s:%s key=%s done=%d res=%d data_ok=%d srv_ms=%s issued=%s:%s" % (
             o["lc"], o["suite"], f, c[:8], bytes.fromhex(o["off_key"])[:10].decode("latin1") if o["off_key"] else "-", o["done"], o["res"], o["data_ok"],
@@ -283,14 +304,16 @@ def check_history(h, res, replay, pairs, samples):
     # issuers: first operation after which a client held the credential without having offered it
     issuer = {}
     for o in hs:
-        f, c = cred_of(o, "iss")
-        if c != "0" and cred_of(o, "off")[1] != c and (f, c) not in issuer:
-            issuer[(f, c)] = o
+        for f in ("id", "tk", "psk"):
+            c = o["iss_" + f]
+            if c != "0" and o["off_" + f] != c and (f, c) not in issuer:
+                issuer[(f, c)] = o
     invalid = {}
     for o in hs:
         if o["srv_err"] and o["srv_sid"] != "0":
             invalid.setdefault(o["srv_sid"], []).append(o)
-    id_ops = [o for o in hs if o["lt"] in ("id12", "id11")]
+    # every TLS <= 1.2 handshake may take or recycle a session-cache entry (ticket clients too while the server has no ticket keys)
+    id_ops = [o for o in hs if o["lt"] != "psk13"]
     uses = {}       # session id -> operations whose server session held that cache entry (any thread: credentials are also borrowed)
     for o in hs:
         if o["srv_sid"] != "0":
@@ -300,7 +323,8 @@ def check_history(h, res, replay, pairs, samples):
         lt, mode = o["lt"], o["mode"]
         st("hs_ops", 1)
         st("hs_mode_" + mode, 1)
-        f, c = cred_of(o, "off")
+        e = eff(o)
+        f, c = e if e else (PRIMARY[lt], "0")
         # ---- oracle 2
         if mode == "normal":
             if not o["done"]:
@@ -331,8 +355,8 @@ def check_history(h, res, replay, pairs, samples):
         if o["res"]:
             st("resumptions_checked", 1)
             st("resumed_" + lt, 1)
-            if c == "0" or not o["wire"]:
-                V("c20:resumed-without-credential:" + lt, brief(o))
+            if e is None:
+                V("c20:resumed-without-credential:" + lt, brief(o) + " wire=%d" % o["wire"])
                 continue
             x = issuer.get((f, c))
             if x is None or x["c"] >= o["r"]:
@@ -353,17 +377,20 @@ def check_history(h, res, replay, pairs, samples):
                         break
             if o["lc"] >= 4:
                 st("resumed_with_borrowed_credential", 1)
-                if any(q is not o and q["th"] != o["th"] and q["c"] < o["r"] and q["r"] > o["c"] and q["res"] and cred_of(q, "off") == (f, c) for q in hs):
+                if any(q is not o and q["th"] != o["th"] and q["c"] < o["r"] and q["r"] > o["c"] and q["res"] and eff(q) == (f, c) for q in hs):
                     st("same_credential_resumed_concurrently", 1)
             if len(samples) < 6 and (x["th"] == o["th"]) == (len(samples) % 2 == 0):
                 mid = [q for q in ops if q["c"] < o["r"] and q["r"] > x["c"] and q["th"] != o["th"]][:3]
                 samples.append("resumption explained: issuer {%s} ... overlapping {%s} ... resumed {%s}" % (brief(x), "; ".join(brief(q) for q in mid), brief(o)))
-        elif c != "0" and not o["wire"]:
+        elif e is None and any(o["off_" + g] != "0" for g in ("id", "tk", "psk")):
             st("credential_held_but_not_offered", 1)   # client-side choice (ticket state machine after an aborted handshake): nothing to explain
-        elif c != "0":
+        elif e is not None:
             st("fallbacks_checked", 1)
             st("fallback_" + lt, 1)
-            if f == "id":
+            if f == "id" and lt == "tk12":
+                # the id a ticket client holds may be the throw-away id of a ticket handshake (never cached): no must-resume claim
+                st("fallback_tk12_session_id_unchecked", 1)
+            elif f == "id":
                 why = None
                 if any(z["c"] < o["r"] for z in invalid.get(c, [])):
                     why = "invalidated"
@@ -444,10 +471,10 @@ def gdb_stacks(pid):
 
 
 class Run:
-    def __init__(self, idx, seed, threads, ops, outdir, attempt=0):
-        self.idx, self.seed, self.threads, self.ops, self.attempt = idx, seed, threads, ops, attempt
+    def __init__(self, idx, seed, threads, ops, outdir, attempt=0, empty=0):
+        self.idx, self.seed, self.threads, self.ops, self.attempt, self.empty = idx, seed, threads, ops, attempt, empty
         self.dir = os.path.join(outdir, "run%d%s" % (idx, "-retry" if attempt else ""))
-        self.replay = "seed=%d,threads=%d,ops=%d" % (seed, threads, ops)
+        self.replay = "seed=%d,threads=%d,ops=%d" % (seed, threads, ops) + (",empty=1" if empty else "")
         self.proc = None
         self.stacks = None
         self.timed_out = False
@@ -468,6 +495,8 @@ def launch(run, binary, crlarg, keydir, tool, timeout):
            "--keys", keydir]
     if crlarg:
         cmd += ["--crl", crlarg]
+    if run.empty:
+        cmd += ["--empty", "1"]
     if tool == "helgrind":
         cmd = ["valgrind", "--tool=helgrind", "--log-file=%s/helgrind.log" % run.dir, "--history-level=full", "-q"] + cmd
     run.err = open(os.path.join(run.dir, "stderr"), "w")
@@ -541,15 +570,15 @@ def run(ctx):
 
     if ctx.replay:
         rp = json.load(open(ctx.replay)) if os.path.exists(ctx.replay) else {"replay": ctx.replay}
-        m = re.match(r"seed=(\d+),threads=(\d+),ops=(\d+)", rp.get("replay") or "")
+        m = re.match(r"seed=(\d+),threads=(\d+),ops=(\d+)(,empty=1)?", rp.get("replay") or "")
         if not m:
-            raise SystemExit("HARNESS-ERROR replay spec must be seed=<n>,threads=<t>,ops=<k>")
-        cfg = [(int(m.group(1)), int(m.group(2)), int(m.group(3)))] * 12   # races vary from run to run
+            raise SystemExit("HARNESS-ERROR replay spec must be seed=<n>,threads=<t>,ops=<k>[,empty=1]")
+        cfg = [(int(m.group(1)), int(m.group(2)), int(m.group(3)), 1 if m.group(4) else 0)] * 12   # races vary from run to run
     else:
-        cfg = [(derive(ctx.seed, i), t, k) for i, (t, k) in enumerate(plan(ctx.tier))]
+        cfg = [(derive(ctx.seed, i), t, k, e) for i, (t, k, e) in enumerate(plan(ctx.tier))]
         if os.environ.get("VERIF_C20_RUNS"):        # development aid only: fewer runs of the same plan
             cfg = cfg[:int(os.environ["VERIF_C20_RUNS"])]
-    runs = [Run(i, s, t, k, outdir) for i, (s, t, k) in enumerate(cfg)]
+    runs = [Run(i, s, t, k, outdir, empty=e) for i, (s, t, k, e) in enumerate(cfg)]
     timeout_fn = lambda r: 300 + 3 * r.ops + 8 * r.threads      # generous: the progress watchdog catches real deadlocks in ~20 s
     done = execute(runs, binary, crlarg, keydir, "tsan", timeout_fn, vflib.NCPU)
 
@@ -561,7 +590,7 @@ def run(ctx):
             if blocked_in_locks(r.stacks, r.threads):
                 res.add_violation("c20:deadlock", "run %s %s; every worker waits for a mutex:\n%s" % (r.replay, why(r), r.stacks), r.replay)
             else:
-                retry.append(Run(r.idx, r.seed, r.threads, r.ops, outdir, attempt=1))
+                retry.append(Run(r.idx, r.seed, r.threads, r.ops, outdir, attempt=1, empty=r.empty))
                 retry[-1].first_stacks = r.stacks
     if retry:
         for r2 in execute(retry, binary, crlarg, keydir, "tsan", timeout_fn, vflib.NCPU):
@@ -591,9 +620,11 @@ def run(ctx):
             err = open(os.path.join(r.dir, "stderr"), errors="replace").read()
             sig = "signal-%d" % -r.rc if r.rc < 0 else "exit-%d" % r.rc
             fn = "?"
-            for kind, stacks, blk in tsan_parse(logs + err):
-                if "SEGV" in blk or "signal" in kind.lower():
-                    fn = _inner(stacks[0]) if stacks else "?"
+            m = re.search(r"ERROR: ThreadSanitizer: (\S+) on .*?\n((?:.*\n){0,40})", logs + err)
+            if m:
+                sig = m.group(1)
+                fn = _inner([f for f in (_frame(ln) for ln in m.group(2).split("\n")) if f])
+            res.add_stat("runs_crashed", 1)
             res.add_violation("c20:crash:%s:%s" % (sig, fn), "run %s terminated abnormally (%s)\n%s\n%s" % (r.replay, sig, err[-3000:], logs[-3000:]), r.replay)
             continue
         nthreads_seen.add(r.threads)
